@@ -116,7 +116,8 @@ Fixpoint ty_tree (t : ty) : tree :=
   end.
 
 (* ---------- positions (the POS comments of ast/ast.go) ---------- *)
-Definition last_ident_end (ids : list ident) : Z := match rev ids with i :: _ => id_end i | [] => 0 end.
+Fixpoint last_end (d : Z) (ids : list ident) : Z := match ids with [] => d | i :: r => last_end (id_end i) r end.
+Definition last_ident_end (ids : list ident) : Z := last_end 0 ids.
 Definition ty_pos (t : ty) : Z :=
   match t with
   | TSimple p _ => p
